@@ -415,8 +415,16 @@ func gated(ctx *core.Ctx, bin string, caseNo int, withRename bool) {
 			cmd = []string{"PERSIST", k, id}
 		case 11:
 			cmd = []string{"JSET", k, "jdoc", "p" + strconv.Itoa(r.Intn(3)), strconv.Itoa(steps)}
+			if r.Intn(2) == 0 {
+				// not idempotent: appends to an array
+				cmd = []string{"JSET", k, "jarr", "list.-1", strconv.Itoa(steps)}
+			}
 		case 12:
 			cmd = []string{"JDEL", k, "jdoc", "p" + strconv.Itoa(r.Intn(3))}
+			if r.Intn(2) == 0 {
+				// not idempotent: removes the first array element, whatever it is
+				cmd = []string{"JDEL", k, "jarr", "list.0"}
+			}
 		case 13:
 			cmd = []string{"SETCHAN", "cg" + strconv.Itoa(r.Intn(3)), "META", "s", strconv.Itoa(steps), "WITHIN", k, "FENCE", "BOUNDS", "0", "0", "1", strconv.Itoa(1 + r.Intn(5))}
 		case 14:
@@ -790,7 +798,7 @@ func dirList(dir string) []string {
 
 // Run is the C09 check.
 func Run(ctx *core.Ctx) {
-	ctx.Rule = "datasets with 7-25 collections of 1..100 objects (sizes on the 8-key / 32-id scan batch boundaries), every object kind, every field value kind (numbers incl. NaN/Inf spellings, strings needing escaping, true/false/null, JSON), strings, TTLs, hooks and channels with metas and EX. sequential: shrink (once or twice; one case in three with stale appendonly.aof-shrink / -bak files of an earlier crashed rewrite in the directory), live dump before == after, restart dump == live, TTLs not shortened; gated: the rewrite is parked at every key batch / id batch / before the final swap and a scripted writer (SET/FSET/DEL/PDEL/DROP/EXPIRE/PERSIST/JSET/JDEL/SETCHAN/DELCHAN/EVAL[/RENAME/RENAMENX]) touches scanned, in-scan and unscanned keys between releases, then restart dump == live dump; free-running: token writers during 2-3 shrinks; crash: the process kills itself at each named step of the rewrite / swap (with and without concurrent writers), restart must yield the full acknowledged state. non-trivial = shrink during which >= 1 write was accepted, or a crash point hit, or a sequential case; distinct key = (case kind, command kinds interleaved / crash point)"
+	ctx.Rule = "datasets with 7-25 collections of 1..100 objects (sizes on the 8-key / 32-id scan batch boundaries), every object kind, every field value kind (numbers incl. NaN/Inf spellings, strings needing escaping, true/false/null, JSON), strings, TTLs, hooks and channels with metas and EX. sequential: shrink (once or twice; one case in three with stale appendonly.aof-shrink / -bak files of an earlier crashed rewrite in the directory), live dump before == after, restart dump == live, TTLs not shortened; gated: the rewrite is parked at every key batch / id batch / before the final swap and a scripted writer (SET/FSET/DEL/PDEL/DROP/EXPIRE/PERSIST/JSET/JDEL (also the non-idempotent array append `list.-1` and index delete `list.0`)/SETCHAN/DELCHAN/EVAL[/RENAME/RENAMENX]) touches scanned, in-scan and unscanned keys between releases, then restart dump == live dump; free-running: token writers during 2-3 shrinks; crash: the process kills itself at each named step of the rewrite / swap (with and without concurrent writers), restart must yield the full acknowledged state. non-trivial = shrink during which >= 1 write was accepted, or a crash point hit, or a sequential case; distinct key = (case kind, command kinds interleaved / crash point)"
 	ctx.Assumptions = []string{"shrink completion is read from the arrival counter of the hook after the last step", "kill at a crash point is SIGKILL of the process itself (page cache kept)"}
 	bin, err := srv.Build("plain")
 	if err != nil {
